@@ -6,6 +6,9 @@ import os
 V = os.path.dirname(os.path.dirname(os.path.abspath(__file__)))
 
 CHECKS = {
+    "C03": dict(cat="model_checking", ref="§3.1, §4 C03", tech="TLA+ VMTrace.tla (control state of a Runtime) checked by TLC against event traces recorded from the real engine (trace validation) over fault-enumerated histories",
+                text="VMTrace.tla specifies the VM's stack discipline (call/try/iterator stacks, handler phases, re-entrant unwinding, generator suspend/resume re-basing, API entry/exit) with the properties Idle (nothing left at the outermost exit, flag and queue cleared after an abrupt one), Nesting (exit registers = entry registers), FrameWF, Unwind and Uncatchable built into its enabling conditions. The engine, built with the verif hooks, records one event per critical section; TLC accepts a trace only if every event is an enabled action and every logged stack length equals the model's. Histories: programs with probe() at every statement boundary x every probe position x {thrown value, Go error, interrupt, foreign Go panic} + call-depth limits, over generated bodies (incl. generators) and hand-written generator/async/promise/proxy/class/re-entrant scenarios; additionally each faulted Runtime must run a fixed script exactly like a fresh Runtime.",
+                note="Trusts TLC, the hooks (a52bad1, add-only, compiled out without -tags verif), the vmtrace driver and the white-box register accessor. A rejected trace has no counterexample: the failing event and its predecessors are reported. Queued jobs are not required to be dropped after a FOREIGN Go panic."),
     "C08": dict(cat="model_checking", ref="§3.3, §4 C08", tech="TLA+ MiniJS.tla (definitional small-step machine) evaluated by TLC as an oracle on generated programs; goja runs the printed programs; logs and completions compared",
                 text="MiniJS.tla is a small-step definitional semantics of the control-flow subset (try/catch/finally, five loop kinds, labels, switch with fall-through, break/continue/return/throw, for-of / destructuring / spread over instrumented iterators with IteratorClose). TLC evaluates the machine — checking its own invariants TypeOK/CompOK/FinOnce in every state — on a systematic family (every nesting of two (thorough: three) constructs and try positions with an abrupt completion of each kind innermost) and on seeded random programs; the same trees are printed as JavaScript and run by goja; every finally entry, catch entry, next()/return() call and the final completion must agree.",
                 note="Trusts TLC, the printer (lib/mjgen.py) and the runner. Uncatchable conditions (interrupt, stack overflow) running no finally/close are decided by the VM trace check (C03/C15), not here. Subset: constants as values, no closures."),
